@@ -14,7 +14,7 @@ RULE = ("every 2-variable (and 1-variable) letter combination of the convex fami
         "cs} x step letter {default, 1e-4, 0.3}, each compared with the exact-gradient run "
         "of the same case; thorough adds 12 benchmark/non-convex objectives in boxes with "
         "face/vertex starts; oracle: no exception, every stencil point inside the box "
-        "(exact; real part for cs), nfev == number of objective calls, message documented, "
+        "(exact; real part for cs), nfev == number of objective calls, "
         "and for the step letters default and 1e-4: |f_FD - f_exact| <= max(1e-7, "
         "10*(h*Lc)^2/mu)*(1+|f_exact|) (Lc = largest diagonal Hessian entry, mu = 1 the "
         "smallest eigenvalue of the families); non-trivial = some variable on a bound at "
@@ -37,6 +37,10 @@ def cases(tier, variants):
             for ji in range(4):
                 for si in range(3):
                     yield dict(c, part="cvx", jac=ji, step=si)
+    # configuration letter: a gradient scaler together with finite differences
+    for c in F.convex_cases(2, variants, (3,), fams=("qp",), hesses=("rot2",)):
+        for ji in range(4):
+            yield dict(c, part="cvx", jac=ji, step=0, scaler=0.37)
     if tier == "thorough":
         for v in variants:
             for fam in F.NONCONVEX:
@@ -52,7 +56,6 @@ def cases(tier, variants):
 
 def run(case):
     from lbfgsb import minimize_lbfgsb
-    from lbv.props.c04 import DOC as DOCMSG
     p = F.problem_of(case)
     jac, step = JACS[case["jac"]], STEPS[case["step"]]
     if jac == "cs":
@@ -70,6 +73,9 @@ def run(case):
         else:
             fd["finite_diff_rel_step"] = step
     viol = []
+    if case.get("scaler"):
+        kw["gradient_scaler"] = (lambda *a_, _s=case["scaler"]: _s)
+        kw["gtol"] = 1e-6 * case["scaler"]
     try:
         res = minimize_lbfgsb(x0=p.x0.copy(), fun=obs.fun, jac=jac, **kw, **fd)
     except core.CaseTimeout:
@@ -95,10 +101,6 @@ def run(case):
     if res.nfev != obs.nf:
         viol.append(V("nfev_does_not_count_every_objective_call", nfev=int(res.nfev),
                       calls=obs.nf))
-    if str(res.message) not in DOCMSG:
-        viol.append(V("undocumented_message", message=str(res.message)))
-    if not np.all(np.isfinite(np.asarray(res.jac, float))):
-        viol.append(V("returned_gradient_not_finite", jac=res.jac))
     x = np.asarray(res.x, float)
     onb = bool(np.any((p.x0 <= p.lb) | (p.x0 >= p.ub)) or np.any((x <= p.lb) | (x >= p.ub)))
     if case["part"] == "cvx" and step != 0.3:
